@@ -10,7 +10,7 @@ CFG = dict(
     floor=dict(evaluations=100000, nontrivial=50000,
                counters={"shape:cover": 1000, "shape:more-specific-only": 1000, "shape:cover+sibling": 1000,
                          "route:off-byte": 1000, "policy-condition-evals": 1000, "policy-condition-evals-accumulated-assignment": 1000, "histories": 100}),
-    quick=[e1("all", "c12", "debug", 1, 40), e1("all", "c12", "release", 1, 40)],
+    quick=[e1("all", "c12", "debug", 1, 120), e1("all", "c12", "release", 1, 120)],
     thorough=[e1("exh", "c12", "debug", 6, 200, part="exhaustive"),
               e1("rnd", "c12", "release", 6, 200, part="random"),
               e1("hist", "c12", "debug", 4, 200, part="history"),
